@@ -185,6 +185,17 @@ func (w *World) FullSweep(t *rapid.T, l *LState, o HistOpts) {
 	w.CheckVolumes(l, nil, nil, false, 0, 5)
 	w.CheckAggregated(l, nil, false, nil, nil)
 	w.CheckLogs(l, 4, paginate.OrderAsc)
+	w.CheckMovesTable(l)
+	if len(l.M.Txs) > 0 {
+		// a point in time beyond every recorded date: the answer is the current state, but it is computed from the moves
+		beyond := w.Env.Sim.Clock().Add(1000 * time.Hour)
+		for _, tx := range l.M.Txs {
+			if !tx.Timestamp.Before(beyond) {
+				beyond = tx.Timestamp.Add(time.Hour)
+			}
+		}
+		w.CheckAccounts(l, &beyond, 15)
+	}
 	if o.PITReads && len(l.M.Txs) > 0 {
 		pit := w.genPIT(t, l)
 		w.CheckTransactions(l, pit, 15, paginate.OrderAsc)
